@@ -46,11 +46,23 @@ def _pipeline(e, env):
     if isinstance(e, ast.Call):
         f = e.func
         kw = {k.arg: k.value for k in e.keywords if k.arg}
+        if isinstance(f, ast.Attribute) and isinstance(f.value, ast.Name) and f.value.id in env and isinstance(env[f.value.id][0], str) \
+                and env[f.value.id][0].startswith("<zlib.") and f.attr in ("decompress", "compress") and e.args:
+            # streaming (de)compressor bound to a local and used for one shot
+            src, st = _pipeline(e.args[0], env)
+            return (src, st + [Stage("func", "zlib." + f.attr, list(e.args[1:]), kw, e)])
+        if isinstance(f, ast.Attribute) and isinstance(f.value, ast.Name) and f.value.id == "zlib" and f.attr in ("decompressobj", "compressobj") and not e.args:
+            return ("<zlib." + f.attr + ">", [])
         if isinstance(f, ast.Attribute) and isinstance(f.value, ast.Name) and f.value.id in ("json", "zlib", "base64"):
             if not e.args:
                 raise AnalysisError(f"C18: call without data argument: {norm(e)}")
             src, st = _pipeline(e.args[0], env)
             return (src, st + [Stage("func", f"{f.value.id}.{f.attr}", e.args[1:], kw, e)])
+        if isinstance(f, ast.Attribute) and isinstance(f.value, ast.Call) and norm(f.value.func) in ("zlib.decompressobj", "zlib.compressobj") \
+                and f.attr in ("decompress", "compress") and e.args:
+            # streaming object used for one shot: same stage, extra arguments (max_length, wbits) are kept for the per-stage rule
+            src, st = _pipeline(e.args[0], env)
+            return (src, st + [Stage("func", "zlib." + f.attr, list(e.args[1:]) + list(f.value.args), dict(kw, **{k.arg: k.value for k in f.value.keywords if k.arg}), e)])
         if isinstance(f, ast.Attribute):
             src, st = _pipeline(f.value, env)
             return (src, st + [Stage("method", f.attr, e.args, kw, e)])
@@ -100,6 +112,8 @@ def run(repo: Repo, chk: Check):
     we = f"{m.path}:{enc.lineno} in encode_data"
     wd = f"{m.path}:{dec.lineno} in decode_data"
 
+    unknown = []
+
     def body_pipeline(fn, allow_pad):
         env = {}
         pads = []
@@ -126,13 +140,18 @@ def run(repo: Repo, chk: Check):
             if isinstance(st, ast.Return) and st.value is not None:
                 ret = _pipeline(st.value, env)
                 continue
-            raise AnalysisError(f"{fn.name}: statement shape not recognised: {norm(st)[:80]}")
+            unknown.append(st)
         if ret is None:
             raise AnalysisError(f"{fn.name}: no return value")
         return ret
 
     esrc, est = body_pipeline(enc, False)
     dsrc, dst = body_pipeline(dec, True)
+    for st in unknown:
+        fn_ = "decode_data" if any(st is x for x in ast.walk(dec)) else "encode_data"
+        chk.bad("R18.a", f"types:{fn_}:only the codec stages touch the data",
+                f"{fn_} contains the statement '{norm(st)[:90]}', which is not one of the encoding stages: whatever it does to the data is not undone by the other function",
+                None, f"{m.path}:{st.lineno} in {fn_}")
     chk.judge("R18.a", "types:encode_data:source is the parameter", esrc == enc.args.args[0].arg, f"pipeline starts from {esrc}", None, we)
     chk.judge("R18.a", "types:decode_data:source is the parameter", dsrc == dec.args.args[0].arg, f"pipeline starts from {dsrc}", None, wd)
 
@@ -221,7 +240,7 @@ def run(repo: Repo, chk: Check):
         if n == "json.loads" and (s.args or s.kwargs):
             bad.append("json.loads with hooks/keywords changes the decoded value")
         if n == "zlib.decompress" and (s.args or set(s.kwargs) - NEUTRAL_KW[n]):
-            bad.append("zlib.decompress with wbits differs from zlib.compress defaults")
+            bad.append(f"zlib.decompress is given extra arguments {[norm(a) for a in s.args]} {sorted(s.kwargs)} (wbits / max_length): it no longer returns everything zlib.compress wrote")
         if n.startswith("base64.") and (s.args or set(s.kwargs) - NEUTRAL_KW.get(n, set())):
             bad.append("base64 decode with altchars not used by the encoder")
         if n == "bytes.decode":
